@@ -1,4 +1,23 @@
 chk('C15', 'model_checking',
-    'explicit-state BFS over expression programs built from a+w, w+a (w = every word of length <= 4 at the first level, <= 2 deeper, in each of its 12 accepted container forms: 4 string spellings, int/bool list, tuple, bool/int64/float64/uint8 ndarray, binary_sequence), ~a and 7 slices, from ALL 8191 words of length 0..12 as leaves (each first constructed in every container form incl. scalar spellings): every transition is executed on the real object (rebuilt by replaying its path) in lock-step with a tuple-of-bits model, states deduplicated by canonical form (word + layout flags of .data); depth 1 from every leaf and depth 2 from the leaves of length <= 10 (quick), depth 2 from every leaf + depth 4 from the leaves of length <= 6 + every-form first level (thorough). Per transition: closure (.data 1-D uint8 in {0,1}), new object, np.shares_memory with neither operand, operands write-protected and byte-compared, len(a+b), (a+b)[:len a]==a, ~~a==a, ones+zeros==len, ones(~a)==zeros(a), model equality. Plus 646 invalid constructions and 18 invalid operands x 2 orders at every leaf (must raise ValueError/TypeError), long words up to 65537 bits, and x>th / x<th exhaustively over value alphabets^n x noise words x threshold forms',
-    'state abstraction assumes behaviour depends only on .data (bytes, dtype, shape, contiguity - all part of the canonical form); bounded depth/word length, not a fixed point (the state space is infinite); comparison equality clause demanded only where S>=0, S+N>=0, th>=0; a[0] on the empty sequence and the empty string are outside the statement',
-    'explicit-state BFS with canonical-form deduplication on the real objects + reference model in lock-step; bounded-exhaustive tables for constructions/comparisons', 'DESIGN.md 5/C15')
+    'explicit-state BFS over expression programs from ALL 8191 words of length 0..12 as leaves: first-level op set of 794 ops (a+w, w+a for every word w of length <= 4 in '
+    'its 12 base forms: 4 string spellings, int/bool list, tuple, bool/int64/float64/uint8 ndarray, binary_sequence; ~a; 7 slices; a+a, a[:k]+a[k:], a+~a and 10 more self-derived; '
+    '18 invalid operands x 2 orders), 1680 ops from the leaves <= 7 (+ words <= 3 in 21 extended dtype/element-type forms, 76 operands that must be refused, '
+    '53 the statement is silent on), 173 ops deeper (w <= 2). Every transition is executed on the real object (rebuilt by replaying its path) in lock-step with a tuple-of-bits '
+    'model; states deduplicated by canonical form (word + layout flags of .data). quick: depth 1 from every leaf, depth 2 from the leaves <= 10: 195 583 states, 10.6 M '
+    'transitions; thorough: depth 2 from every leaf + depth 4 from the leaves <= 6 + every-form first level for leaves <= 8: 982 955 states, 62.1 M transitions. Per transition: '
+    'closure (.data 1-D uint8 in {0,1}), new object, shares memory with neither operand, operands write-protected and byte-compared, len(a+b), (a+b)[:len a]==a, ~~a==a, '
+    'ones+zeros==len, ones(~a)==zeros(a), model equality; len/ones/zeros re-asked after the ops in rotating order. Around it: every word built in 32 container forms (ndarray '
+    'of 15 dtypes, strided / negative-stride views, list/tuple element types, mixed separators; words > 8: 18) + 17 scalar spellings (157 981 constructions); 1 797 '
+    'invalid / free constructions (one bad value or token per context, dtype limits, non-1-D shapes); every integer index in 8 integer kinds and every slice '
+    'start:stop:step of words <= 6 (thorough 9); never-queried operands (words <= 8 / 10); 660 / 1 410 long words, 18 lengths up to 65537 bits (seeded content); x>th / x<th '
+    'over 8 value classes (alphabets^n, n <= 2 / 3, incl. tiny / big / offset / extreme) x noise words x threshold forms, a signal container/dtype axis and seeded fields of 12 '
+    'lengths (444 / 1 156 cases); the same cases after 12 gv histories; kernel call-history part (3 calls x 3 grids vs a fresh interpreter). '
+    'quick 44 543 / thorough 290 373 evaluations',
+    'state abstraction assumes behaviour depends only on .data (bytes, dtype, shape, contiguity - all part of the canonical form); bounded depth / word length (BFS states up '
+    'to 16 bits plus doubled words), not a fixed point (the state space is infinite); inside the BFS only 7 slices, all others on words <= 6 (9); fancy / boolean indexing '
+    'closure only; comparison equality clause demanded only where S>=0, S+N>=0, th>=0 (quick 291 008 of 437 622 comparisons), elsewhere validity and length; a threshold of '
+    'another length may raise ValueError or return the signal length; bool signal with bool noise, reflected comparisons, a[0] on the empty sequence, out-of-range indices '
+    'and the empty string are outside; "free" inputs (tab/newline separators, float/signed spellings in strings, range, bytes, sets, generators, scalar operands of + ...) '
+    'may be refused or accepted as a valid sequence; long-word and compare-long content depends on VERIF_SEED',
+    'explicit-state BFS with canonical-form deduplication on the real objects + reference model in lock-step (bounded depth, no fixed point claimed); bounded-exhaustive '
+    'tables for constructions / indexing / comparisons; fresh-interpreter differential oracle for the kernel call-history part', 'DESIGN.md 5/C15')
